@@ -326,7 +326,7 @@ def run(ctx):
     params = {'LIT': 5 if ctx.tier == 'quick' else 7, 'SCALES': [0, 1, 2] if ctx.tier == 'quick' else [0, 1, 2, 3, 4],
               'LONG': (17, 18, 19, 20, 28, 29) if ctx.tier == 'quick' else tuple(range(8, 32)),
               'WIDE': (28, 29, 30) if ctx.tier == 'quick' else (20, 24, 26, 27, 28, 29, 30),
-              'seed': ctx.seed, 'timeout_ms': 10000 if ctx.tier == 'quick' else 60000, 'step_limit': 400000}
+              'seed': ctx.seed, 'timeout_ms': 30000 if ctx.tier == 'quick' else 60000, 'step_limit': 400000}
     eng = ctx.engine('dev')
     recs, summ = ex.explore(eng, harness, params, prepare=prepare)
     inconclusive = []
@@ -334,6 +334,9 @@ def run(ctx):
     float_reached = []
     for r in recs:
         by_status[r['status']] = by_status.get(r['status'], 0) + 1
+        if r['status'] == 'outside' and any(k in str(r.get('detail')) for k in ('to_f64', 'to_f32', 'from_f64', 'from_f32', 'float')):
+            # a float conversion the encoder cannot follow symbolically lies on the data path of a numeric operator
+            float_reached.append('%s %s' % (r.get('notes'), r.get('detail')))
         if r['status'] in ('unsupported', 'inconclusive'):
             d = str(r.get('detail'))
             if 'float' in d or 'f64' in d or 'f32' in d:
